@@ -201,6 +201,10 @@ func runWalkerCase(wc walkerCase) (map[string]any, error) {
 		case "cancelled":
 			return dag.CacheMiss, fmt.Errorf("interrupted: %w", context.Canceled)
 		}
+		if i < len(wc.FailKind) && wc.FailKind[i] == "spurious-cancel" {
+			// e.g. a cache client or a tool that gave up on a context of its own: NOT a cancellation of the walk
+			return dag.CacheMiss, fmt.Errorf("remote cache: %w", context.Canceled)
+		}
 		if i < len(wc.FailKind) && wc.FailKind[i] == "deadline" {
 			// what a target that exceeds its own `timeout:` may look like: a failure, not a cancellation of the walk
 			return dag.CacheMiss, fmt.Errorf("timeout after 1s: %w", context.DeadlineExceeded)
